@@ -4,6 +4,7 @@ State = materialised package (descriptor + rows).  Transition = one real step ap
 For every path the lazy chained run is compared with the stepwise state (C01); every state and every lazy
 result is checked against the descriptor/row invariant (C02)."""
 import os
+import re
 import copy
 import hashlib
 import functools
@@ -54,6 +55,12 @@ def _rows_peek(env, tag, rows):
         yield r
 
 
+def _rows_empty(env, tag, rows):
+    """Returns an empty sequence without looking at its argument: every selected resource ends up with no rows."""
+    _mark(env, tag)
+    return []
+
+
 def _package(env, tag, package):
     _mark(env, tag)
     package.pkg.descriptor['title'] = 'U'
@@ -63,8 +70,9 @@ def _package(env, tag, package):
 
 
 ROLE_IMPL = {'row_inplace': (_row_inplace, 'row'), 'row_new': (_row_new, 'row'), 'rows': (_rows, 'rows'),
-             'package': (_package, 'package'), 'rows_peek': (_rows_peek, 'rows')}
+             'package': (_package, 'package'), 'rows_peek': (_rows_peek, 'rows'), 'rows_empty': (_rows_empty, 'rows')}
 IDENTITY_LINKS = {'user:rows_peek:%s' % k for k in ('function', 'lambda', 'method', 'partial', 'object')}
+EMPTYING_LINKS = {'user:rows_empty:%s' % k for k in ('function', 'lambda', 'method', 'partial', 'object')}
 KINDS = ['function', 'lambda', 'method', 'partial', 'object']
 
 
@@ -472,7 +480,7 @@ def state_diff(a, b):
 
 def shape(symnames):
     """Abstract a path to its signature features: symbol names with user kinds kept."""
-    return '+'.join(symnames)
+    return '+'.join(re.sub(r'^(user:rows_empty):\w+$', r'\1', n) for n in symnames)
 
 
 def compositions(n):
@@ -529,6 +537,8 @@ def stepwise(init, path, memo=None):
                 legit.add('u%d' % (i + 1))       # a row function legitimately never runs when no row reaches it
             else:
                 return {'kind': 'skipped', 'at': i, 'missing': r['missing']}
+        if sym in EMPTYING_LINKS and any(len(x) for x in r['res'][1].rows):
+            return {'kind': 'emptying-broken', 'at': i, 'diff': 'rows per resource %r' % [len(x) for x in r['res'][1].rows]}
         if sym in IDENTITY_LINKS and state_diff(r['res'][1], state):
             return {'kind': 'identity-broken', 'at': i, 'diff': state_diff(r['res'][1], state)}
         state = r['res'][1]
@@ -556,6 +566,11 @@ def check_path(inp, path, memo=None, variants=False):
     sw = stepwise(init, path, memo)
     if lz['res'][0] == 'ok' and sw['kind'] == 'ok':
         lz['missing'] = [m for m in lz['missing'] if m not in sw['legit_missing']]
+        # a link that never asks for its input legitimately keeps the row-level links before it from ever being called
+        last_emptying = max([i for i, sym in enumerate(path) if sym in EMPTYING_LINKS], default=-1)
+        lazy_legit = {'u%d' % (i + 1) for i, sym in enumerate(path[:max(last_emptying, 0)])
+                      if sym.startswith('user:row')}
+        lz['missing'] = [m for m in lz['missing'] if m not in lazy_legit]
     if lz['res'][0] == 'ok' and lz['missing']:
         viol.append(('skipped-link', 'Flow(%s) returned normally but user link(s) %s never ran'
                      % (', '.join(path), lz['missing'])))
@@ -563,6 +578,10 @@ def check_path(inp, path, memo=None, variants=False):
     if sw['kind'] == 'identity-broken':
         viol.append(('identity-link', 'Flow(..., %s): a rows-function that passes every row on (after peeking at the first) '
                      'changed the stream: %s' % (path[sw['at']], sw['diff'])))
+        return viol, 'differs', None
+    if sw['kind'] == 'emptying-broken':
+        viol.append(('emptying-link', 'Flow(..., %s): a rows-function that returns an empty sequence left rows in the stream: %s'
+                     % (path[sw['at']], sw['diff'])))
         return viol, 'differs', None
     if sw['kind'] == 'swallowed':
         viol.append(('failure-swallowed', 'stepwise Flow(..., %s) returned normally although the link raises while its rows '
@@ -593,6 +612,11 @@ def check_path(inp, path, memo=None, variants=False):
             late = True
         else:
             viol.append(('lazy-vs-stepwise', 'Flow(%s): lazy vs stepwise: %s' % (', '.join(path), d2)))
+    # a link that never asks for its input abandons the upstream steps: what they write / report then legitimately
+    # depends on laziness (same family as the C05 finding about early-stopping user steps); only the stream is compared
+    abandons = any(sym in EMPTYING_LINKS for sym in path)
+    if abandons:
+        lz = dict(lz, tree=sw['tree'], log=sw['log'])
     if lz['tree'] != sw['tree']:
         nl, ns = norm_tree(lz['tree']), norm_tree(sw['tree'])
         if nl == ns:
